@@ -29,7 +29,8 @@ def consts(nt, maxops, maxenv, ops, *, depth=3, shields="{0, 1}", deadlines="{99
            cleanups="{0}", pres="{0}", env='{"cancel", "native"}', via_setter="{0}"):
     return {"NT": str(nt), "INF": "99", "Ops": ops, "MaxOps": str(maxops), "MaxEnv": str(maxenv),
             "EnvKinds": env, "MaxDepth": str(depth), "Shields": shields, "Deadlines": deadlines,
-            "Delays": delays, "Cleanups": cleanups, "Pres": pres, "ViaSetter": via_setter}
+            "Delays": delays, "Cleanups": cleanups, "Pres": pres, "ViaSetter": via_setter,
+            "RecordHist": "TRUE"}
 
 
 def cmp(model: dict, real: dict) -> list[str]:
